@@ -29,6 +29,10 @@ ASSUMPTIONS = ['the peer implements the matching alternating-bit half (nRF firmw
 FLOORS = {'R1': 3, 'R2': 2, 'R3': 3, 'R4': 2, 'R5': 3, 'R6': 3, 'R7': 5, 'R8': 7, 'R9': 8, 'R10': 2, 'R11': 6}
 
 
+def _unq(text):
+    return text[6:] if isinstance(text, str) and text.startswith('queue.') else text      # `from queue import Queue` / `import queue`
+
+
 def is_toggle(value, attr):
     t = norm(value).replace(' ', '')
     return t in ('1-%s' % attr, '%s^1' % attr, '1^%s' % attr, '(%s+1)%%2' % attr, 'not%s' % attr, 'int(not%s)' % attr)
@@ -44,10 +48,11 @@ def check(ctx):
     hdr_or = [s for s in walk_own(sps.node) if isinstance(s, ast.AugAssign) and isinstance(s.op, ast.BitOr) and norm(s.target) == '%s[0]' % pkp]
     hdr_and = [s for s in walk_own(sps.node) if isinstance(s, ast.AugAssign) and isinstance(s.op, ast.BitAnd) and norm(s.target) == '%s[0]' % pkp]
     ctx.need(len(hdr_or) == 1 and len(hdr_and) == 1, '_send_packet_safe: header clear/set statements not found')
-    attrs = sorted({norm(a) for a in ast.walk(hdr_or[0].value) if isinstance(a, ast.Attribute) and norm(a).startswith('self.')})
+    hdr_val = g.expand_locals(g.node_of(hdr_or[0].value), hdr_or[0].value)      # explaining variables read through
+    attrs = sorted({norm(a) for a in ast.walk(hdr_val) if isinstance(a, ast.Attribute) and norm(a).startswith('self.')})
     ctx.need(len(attrs) == 2, '_send_packet_safe: expected two sequence-bit attributes in the header expression, found %s' % attrs)
     sc = Scope.of(sps)
-    hb = B_.evaluate(hdr_or[0].value, sc, {attrs[0]: 'a', attrs[1]: 'b'}, {'a': 1, 'b': 1})
+    hb = B_.evaluate(hdr_val, sc, {attrs[0]: 'a', attrs[1]: 'b'}, {'a': 1, 'b': 1})
     pos = {}
     for i, b in enumerate(hb):
         if isinstance(b, tuple):
@@ -62,7 +67,8 @@ def check(ctx):
              'the two bits are cleared, then set from the current sequence numbers: %s' % B_.describe(hb, 8))
     cmps = [c for c in ast.walk(sps.node) if isinstance(c, ast.Compare) and 'data[0]' in norm(c)]
     if len(cmps) == 1:
-        left, right = cmps[0].left, cmps[0].comparators[0]
+        cn = g.node_of(cmps[0])
+        left, right = g.expand_locals(cn, cmps[0].left), g.expand_locals(cn, cmps[0].comparators[0])
         lb = B_.evaluate(left, sc, {'resp.data[0]': 'r', D: 'd'}, {'r': 8, 'd': 1})
         rb = B_.evaluate(right, sc, {'resp.data[0]': 'r', D: 'd'}, {'r': 8, 'd': 1})
         if not any(isinstance(b, tuple) and b[1] == 'r' for b in lb):
@@ -108,7 +114,7 @@ def check(ctx):
     frame = norm(tx[0][1].args[-1])
     # ---- R6 ----------------------------------------------------------------------------------------
     ctx.inst('R6', run, 'both-branches-send-frame', all(norm(c.args[-1]) == frame for _, c in tx), 'both send branches transmit the same frame variable %s' % frame)
-    fb = sorted([n for n in g.nodes if n.kind == 'stmt' and isinstance(n.ast, ast.Assign) and norm(n.ast.targets[0]) == frame], key=lambda n: n.line)
+    fb = sorted([n for n in g.nodes if n.kind == 'stmt' and isinstance(n.ast, ast.Assign) and norm(n.ast.targets[0]) == frame], key=lambda n: (n.id in body, n.line))   # the binding before the loop first (inlined code keeps its own line numbers)
     deq = [(n, c) for n, c in g.find(lambda q: method_call(q, 'get') and 'out_queue' in norm(q.func.value)) if n.id in body]
     ctx.need(len(deq) == 1 and len(fb) == 2, 'run(): dequeue / frame bindings not found (dequeues=%d, bindings=%d)' % (len(deq), len(fb)))
     ctx.inst('R6', run, 'initial-null-frame', fb[0].id not in body and norm(fb[0].ast.value) == "array.array('B', [255])", 'the first frame is the null packet 0xFF; found %s' % norm(fb[0].ast.value))
@@ -204,7 +210,7 @@ def check(ctx):
     Dr = m.cls(RD, 'RadioDriver')
     con = Dr.method('connect')
     qs = {norm(s.targets[0]): norm(s.value) for s in walk_own(con.node) if isinstance(s, ast.Assign) and 'queue' in norm(s.targets[0])}
-    ctx.inst('R9', con, 'out-queue-size-1', qs.get('self.out_queue') == 'queue.Queue(1)' and qs.get('self.in_queue') == 'queue.Queue()', 'hand-off queues: out Queue(1), in unbounded; found %s' % qs)
+    ctx.inst('R9', con, 'out-queue-size-1', _unq(qs.get('self.out_queue')) == 'Queue(1)' and _unq(qs.get('self.in_queue')) == 'Queue()', 'hand-off queues: out Queue(1), in unbounded; found %s' % qs)
     sp = Dr.method('send_packet')
     gs = cfg_of(sp)
     put = gs.find(lambda q: method_call(q, 'put') and norm(q.func.value) == 'self.out_queue')
@@ -236,8 +242,29 @@ def check(ctx):
             rn = [n for n in grp.nodes if n.kind == 'return' and n.ast.value is v]
             for d in (grp.reaching_defs(rn[0], v.args[0].value.id) if rn else []):
                 forms.append([norm(e) for e in d.ast.value.elts] if isinstance(d.ast, ast.Assign) and isinstance(d.ast.value, ast.Tuple) else ['?'])
+        elif any(isinstance(a, ast.Name) and a.id not in rp.params for a in v.args):
+            # arguments chosen per branch (`block, timeout = True, None`): one form per reaching definition
+            rn = [n for n in grp.nodes if n.kind == 'return' and n.ast.value is v]
+            per = []
+            for a in v.args:
+                if isinstance(a, ast.Name) and a.id not in rp.params:
+                    vals = {}
+                    for d in (grp.reaching_defs(rn[0], a.id) if rn else []):
+                        dv = grp.def_value(d, a.id)
+                        vals[d.id] = norm(dv) if dv is not None else '?'
+                    per.append(vals or {None: '?'})
+                else:
+                    per.append({None: norm(a)})
+            keys = [set(p_) for p_ in per if None not in p_]
+            if keys and all(k == keys[0] for k in keys):
+                for did in sorted(keys[0]):
+                    forms.append([p_.get(did, p_.get(None)) for p_ in per])
+            else:
+                import itertools
+                forms.extend([list(c) for c in itertools.product(*[sorted(set(p_.values())) for p_ in per])])
         else:
             forms.append([norm(a) for a in v.args])
+        forms = [f[:-1] if len(f) == 2 and f[-1] == 'None' else f for f in forms]        # get(block, None) = get(block)
         okr = okr and bool(forms) and all(f in (['False'], ['True'], ['True', rp.params[1]]) for f in forms)
     ctx.inst('R9', rp, 'receive-returns-queue-items', okr,
              'receive_packet returns only items of the in queue or None; returns %s' % sorted(rets))
